@@ -194,7 +194,7 @@ def gen_params(rng, it, tier):
         root_end = it['body'].rfind(b'</')
         p.update({'kind': kind, 'offset': rng.below(max(root_end, 1)), 'bit': rng.below(8), 'len': rng.choice([1, 8, 64, 512]), 'src': rng.below(n)})
     elif src == 'special':
-        p.update({'what': rng.choice(['empty', 'random', 'text', 'missing', 'elf-prefix', 'xml-not-abi'])})
+        p.update({'what': rng.choice(['empty', 'random', 'text', 'missing', 'elf-prefix', 'xml-not-abi', 'elf-half', 'elf-1k', 'elf-no-sections', 'elf-half', 'elf-no-sections'])})
     else:
         p.update({'k': rng.below(max(it['R'], 1)), 'fault': rng.choice(['eio', 'eof']), 'cmd': rng.choice(CMDS[:2])})
     return p
@@ -245,6 +245,9 @@ def execute(ctx, it, p):
         w = p['what']
         img = {'empty': b'', 'random': bytes((i * 197 + 13) & 0xff for i in range(600)), 'text': b'hello, this is not an ABI document\n' * 20,
                'missing': None, 'elf-prefix': open(it['elf'], 'rb').read(300),
+               # ELF images that cannot be loaded by construction: the section header table (at the end of the file) is cut off or disowned
+               'elf-half': open(it['elf'], 'rb').read(os.path.getsize(it['elf']) // 2), 'elf-1k': open(it['elf'], 'rb').read(1024),
+               'elf-no-sections': (lambda b: b[:60] + b'\x00\x00' + b[62:])(open(it['elf'], 'rb').read()),
                'xml-not-abi': b"<?xml version='1.0'?>\n<html><body>not an abi document</body></html>\n"}[w]
         fired.append('special/' + w)
         sites.append((it['name'], 'special', w, p['cmd']))
